@@ -43,7 +43,7 @@ const PLAN: &[(&str, &str, &[&str])] = &[
     (
         "GenAlloc",
         "From IT Require Import SrcSupport.\nFrom IT.gen Require Import GenStamp.",
-        &["Arena::pop_front_free_node", "Arena::new_node", "Arena::free_node", "Arena::clear", "Arena::count", "Arena::is_empty", "Arena::get", "Arena::get_node_id_at"],
+        &["Arena::pop_front_free_node", "Arena::new_node", "Arena::free_node", "Arena::clear", "Arena::count", "Arena::is_empty", "Arena::get", "Arena::get_node_id_at", "Arena::get_node_id"],
     ),
     (
         "GenOps",
@@ -283,7 +283,9 @@ fn mk_sig(key: &str, f: &FnSrc) -> Sig {
                     Pat::Ident(i) => i.ident.to_string(),
                     _ => "_".into(),
                 };
-                params.push((name, ty_of(&pt.ty)));
+                // the `&Node<T>` handed to get_node_id is looked at as an address only
+                let ty = if key == "Arena::get_node_id" && tstr == "&Node<T>" { Ty::Addr } else { ty_of(&pt.ty) };
+                params.push((name, ty));
             }
         }
     }
@@ -339,6 +341,9 @@ fn translate(key: &str, f: &FnSrc, sigs: &HashMap<String, Sig>) -> R<String> {
     let (code, _ty, _d) = cx.block(&f.block, &Tail::FnRet)?;
     for fp in &cx.fun_params {
         binders.insert(1, format!("({} : node -> option nid)", fp));
+    }
+    if cx.layout_params {
+        binders.insert(1, "(v_base v_size : Z)".to_string());
     }
     let mut out = String::new();
     for l in &cx.lifted {
